@@ -151,7 +151,7 @@ package cli
 
 // json.go / tags.go — the same glue for `klog json` (property C20) and `klog tags` (property C14), cuts only: the
 // records handed to the JSON encoder are the ones read, closed by --now, filtered and sorted - nothing else - and come
-// without errors; on parser errors the encoder gets the errors and no records. The tag statistics are computed over
+// without errors; on parser errors the encoder gets the errors and no records; a run that succeeds has printed. The tag statistics are computed over
 // exactly the filtered records that --now was applied to.
 //@ func (*Json).Run
 //@ requires opt != nil && nonnil(ctx)
@@ -162,7 +162,9 @@ package cli
 //@ before ApplyNow assert same(arg2, records)
 //@ before ApplyFilter assert same(arg2, closed)
 //@ before ToJson#2 assert same(arg0, records) && len(arg1) == 0
-//@ ensures true
+// every successful run has printed a document (also when no record is left after filtering)
+//@ before Print bind printed = true
+//@ ensures implies(isnil(result), printed)
 
 //@ func (*Tags).Run
 //@ requires opt != nil && nonnil(ctx)
